@@ -34,12 +34,17 @@ fn ord(o: std::cmp::Ordering) -> &'static str {
     match o { std::cmp::Ordering::Less => "lt", std::cmp::Ordering::Equal => "eq", std::cmp::Ordering::Greater => "gt" }
 }
 
-fn observe<A: BEDLike, B: BEDLike>(xs: &[A], ys: &[B]) -> String {
+fn observe<A: BEDLike + Clone, B: BEDLike + Clone>(xs: &[A], ys: &[B]) -> String {
     let mut w = W::new();
     w.n(xs.len());
     for a in xs { w.n(a.len()); }
     w.n(xs.len());
-    for a in xs { put_gr(&mut w, &a.to_genomic_range()); }
+    // the range of a record, read directly (even positions) or from a record of the OTHER flavour that was given
+    // this one's chromosome, start and end through the setters (odd positions)
+    for (i, a) in xs.iter().enumerate() {
+        if i % 2 == 0 { put_gr(&mut w, &a.to_genomic_range()); }
+        else { let mut z = ys[(i + 1) % ys.len()].clone(); z.set_chrom(a.chrom()).set_start(a.start()).set_end(a.end()); put_gr(&mut w, &z.to_genomic_range()); }
+    }
     w.n(xs.len() * xs.len());
     for (i, a) in xs.iter().enumerate() {
         for (j, b) in ys.iter().enumerate() {
